@@ -14,21 +14,21 @@ use serde_json::json;
 pub struct C11;
 
 /// Bytes that no decoder accepts: a vector (1.20 encoding) whose element marker is invalid.
-fn ill_formed() -> aldrin_core::SerializedValue {
+pub fn ill_formed() -> aldrin_core::SerializedValue {
     real::sv_from_bytes(&[43, 7, 3, 1]).unwrap()
 }
 
 /// Sets up victim (version `vv`) and abuser (version `av`); returns what the probe needs.
-struct Setup {
-    rig: Rig,
-    victim: usize,
-    abuser: usize,
-    svc: aldrin_core::ServiceCookie,
-    chan_to_victim: aldrin_core::ChannelCookie,
-    chan_from_victim_pending: Option<u32>,
+pub struct Setup {
+    pub rig: Rig,
+    pub victim: usize,
+    pub abuser: usize,
+    pub svc: aldrin_core::ServiceCookie,
+    pub chan_to_victim: aldrin_core::ChannelCookie,
+    pub chan_from_victim_pending: Option<u32>,
 }
 
-fn setup(vv: u32, av: u32) -> Result<Setup, String> {
+pub fn setup(vv: u32, av: u32) -> Result<Setup, String> {
     let mut rig = Rig::new();
     let victim = rig.connect(vv);
     let abuser = rig.connect(av);
